@@ -1,74 +1,89 @@
 (* C11 — Source locations and line/column positions are correct.
    Property theorems only.  Models: Loc/LineCol.v — the specification [lc_line_col] (GraphQL LineTerminators
-   \n, \r\n, \r; columns count Unicode scalar values) and [lc_impl_line_col], the literal model of
+   \n, \r\n, \r; columns count Unicode scalar values) and [lc_impl_line_col_old], the literal model of
    SourceFile::get_line_column = ariadne 0.6.0 Source::from + lc_get_byte_line; Loc/Spans.v — Name's packed
    location.  [res_of] turns the specification's option into the code's result type. *)
 From ApolloVerif Require Import Base.Chars Loc.LineCol Loc.Spans Loc.LineColProofs.
 
-(* The full statement  forall s off, lc_impl_line_col s off = res_of (lc_line_col s off)  is FALSE of the code
-   today (finding D9).  Three witnesses, one per known class; each lies in exactly one class. *)
-
-(* "é中🚀" x : the x is at byte offset 12: columns are counted in bytes *)
-Definition w_col : str := [34; 233; 20013; 128640; 34; 32; 120].
-Theorem C11_line_col_refuted_col :
-  lc_impl_line_col w_col 12 = LcSome 1 13 /\ lc_line_col w_col 12 = Some (1, 7) /\
-  lc_k_sep w_col 12 = false /\ lc_k_col w_col 12 = true /\ lc_k_eof w_col 12 = false.
-Proof. vm_compute. auto 6. Qed.
-Check C11_line_col_refuted_col :
-  lc_impl_line_col w_col 12 = LcSome 1 13 /\ lc_line_col w_col 12 = Some (1, 7) /\
-  lc_k_sep w_col 12 = false /\ lc_k_col w_col 12 = true /\ lc_k_eof w_col 12 = false.
-Print Assumptions C11_line_col_refuted_col.
-
-(* #a<FF>b<LF><space>x : the x is at byte offset 6: form feed starts a new line *)
-Definition w_sep : str := [35; 97; 12; 98; 10; 32; 120].
-Theorem C11_line_col_refuted_sep :
-  lc_impl_line_col w_sep 6 = LcSome 3 2 /\ lc_line_col w_sep 6 = Some (2, 2) /\
-  lc_k_sep w_sep 6 = true /\ lc_k_col w_sep 6 = false /\ lc_k_eof w_sep 6 = false.
-Proof. vm_compute. auto 6. Qed.
-Check C11_line_col_refuted_sep :
-  lc_impl_line_col w_sep 6 = LcSome 3 2 /\ lc_line_col w_sep 6 = Some (2, 2) /\
-  lc_k_sep w_sep 6 = true /\ lc_k_col w_sep 6 = false /\ lc_k_eof w_sep 6 = false.
-Print Assumptions C11_line_col_refuted_sep.
-
-(* a<LF> at offset 2 (end of text): no new line is opened after a trailing terminator *)
-Definition w_eof : str := [97; 10].
-Theorem C11_line_col_refuted_eof :
-  lc_impl_line_col w_eof 2 = LcSome 1 3 /\ lc_line_col w_eof 2 = Some (2, 1) /\
-  lc_k_sep w_eof 2 = false /\ lc_k_col w_eof 2 = false /\ lc_k_eof w_eof 2 = true.
-Proof. vm_compute. auto 6. Qed.
-Check C11_line_col_refuted_eof :
-  lc_impl_line_col w_eof 2 = LcSome 1 3 /\ lc_line_col w_eof 2 = Some (2, 1) /\
-  lc_k_sep w_eof 2 = false /\ lc_k_col w_eof 2 = false /\ lc_k_eof w_eof 2 = true.
-Print Assumptions C11_line_col_refuted_eof.
-
-Theorem C11_line_col_refuted : exists s off, lc_impl_line_col s off <> res_of (lc_line_col s off).
-Proof. exists w_col, 12. vm_compute. discriminate. Qed.
-Check C11_line_col_refuted : exists s off, lc_impl_line_col s off <> res_of (lc_line_col s off).
-Print Assumptions C11_line_col_refuted.
-
-(* Outside the three classes the code agrees with the specification, for every text and every byte
-   offset (also offsets beyond the end and offsets inside a multi-byte character):
-     lc_k_sep : VT, FF, U+0085, U+2028 or U+2029 lies wholly before the offset
-     lc_k_col : a multi-byte character starts before the offset on the offset's line
-     lc_k_eof : the offset is the end of a text that ends with \n or \r *)
-Theorem C11_line_col : forall s off,
-  lc_known_c11 s off = false -> lc_impl_line_col s off = res_of (lc_line_col s off).
+(* The code (SourceFile::get_line_column since commit 7d9a6a9: one scan over char_indices) equals the
+   specification for EVERY text and EVERY byte offset, including offsets beyond the end (None), inside a
+   multi-byte character and between \r and \n.  No known class. *)
+Theorem C11_line_col : forall s off, lc_impl_line_col s off = res_of (lc_line_col s off).
 Proof. exact line_col_correct. Qed.
-Check C11_line_col : forall s off,
-  lc_known_c11 s off = false -> lc_impl_line_col s off = res_of (lc_line_col s off).
+Check C11_line_col : forall s off, lc_impl_line_col s off = res_of (lc_line_col s off).
 Print Assumptions C11_line_col.
-
-(* the literal two-phase model (line table, then search) equals the one-pass scan [lc_impl_scan];
-   in particular the assert! of lc_get_byte_line never fires *)
-Theorem C11_impl_is_scan : forall s off, lc_impl_line_col s off = res_of (lc_impl_scan s off 1 1).
-Proof. exact impl_line_col_scan. Qed.
-Check C11_impl_is_scan : forall s off, lc_impl_line_col s off = res_of (lc_impl_scan s off 1 1).
-Print Assumptions C11_impl_is_scan.
 
 Theorem C11_no_panic : forall s off, lc_impl_line_col s off <> LcPanic.
 Proof. exact impl_line_col_no_panic. Qed.
 Check C11_no_panic : forall s off, lc_impl_line_col s off <> LcPanic.
 Print Assumptions C11_no_panic.
+
+(* ---- the code before 7d9a6a9 (finding D9), kept as [lc_impl_line_col_old] = ariadne 0.6.0 Source::from +
+   get_byte_line: the statement was false of it; three witnesses, one per class, each in exactly one class;
+   outside the classes it agreed with the specification. *)
+
+
+(* "é中🚀" x : the x is at byte offset 12: columns are counted in bytes *)
+Definition w_col : str := [34; 233; 20013; 128640; 34; 32; 120].
+Theorem C11_line_col_old_refuted_col :
+  lc_impl_line_col_old w_col 12 = LcSome 1 13 /\ lc_line_col w_col 12 = Some (1, 7) /\
+  lc_k_sep w_col 12 = false /\ lc_k_col w_col 12 = true /\ lc_k_eof w_col 12 = false.
+Proof. vm_compute. auto 6. Qed.
+Check C11_line_col_old_refuted_col :
+  lc_impl_line_col_old w_col 12 = LcSome 1 13 /\ lc_line_col w_col 12 = Some (1, 7) /\
+  lc_k_sep w_col 12 = false /\ lc_k_col w_col 12 = true /\ lc_k_eof w_col 12 = false.
+Print Assumptions C11_line_col_old_refuted_col.
+
+(* #a<FF>b<LF><space>x : the x is at byte offset 6: form feed starts a new line *)
+Definition w_sep : str := [35; 97; 12; 98; 10; 32; 120].
+Theorem C11_line_col_old_refuted_sep :
+  lc_impl_line_col_old w_sep 6 = LcSome 3 2 /\ lc_line_col w_sep 6 = Some (2, 2) /\
+  lc_k_sep w_sep 6 = true /\ lc_k_col w_sep 6 = false /\ lc_k_eof w_sep 6 = false.
+Proof. vm_compute. auto 6. Qed.
+Check C11_line_col_old_refuted_sep :
+  lc_impl_line_col_old w_sep 6 = LcSome 3 2 /\ lc_line_col w_sep 6 = Some (2, 2) /\
+  lc_k_sep w_sep 6 = true /\ lc_k_col w_sep 6 = false /\ lc_k_eof w_sep 6 = false.
+Print Assumptions C11_line_col_old_refuted_sep.
+
+(* a<LF> at offset 2 (end of text): no new line is opened after a trailing terminator *)
+Definition w_eof : str := [97; 10].
+Theorem C11_line_col_old_refuted_eof :
+  lc_impl_line_col_old w_eof 2 = LcSome 1 3 /\ lc_line_col w_eof 2 = Some (2, 1) /\
+  lc_k_sep w_eof 2 = false /\ lc_k_col w_eof 2 = false /\ lc_k_eof w_eof 2 = true.
+Proof. vm_compute. auto 6. Qed.
+Check C11_line_col_old_refuted_eof :
+  lc_impl_line_col_old w_eof 2 = LcSome 1 3 /\ lc_line_col w_eof 2 = Some (2, 1) /\
+  lc_k_sep w_eof 2 = false /\ lc_k_col w_eof 2 = false /\ lc_k_eof w_eof 2 = true.
+Print Assumptions C11_line_col_old_refuted_eof.
+
+Theorem C11_line_col_old_refuted : exists s off, lc_impl_line_col_old s off <> res_of (lc_line_col s off).
+Proof. exists w_col, 12. vm_compute. discriminate. Qed.
+Check C11_line_col_old_refuted : exists s off, lc_impl_line_col_old s off <> res_of (lc_line_col s off).
+Print Assumptions C11_line_col_old_refuted.
+
+(* Outside the three classes the OLD code agreed with the specification, for every text and every byte
+   offset (also offsets beyond the end and offsets inside a multi-byte character):
+     lc_k_sep : VT, FF, U+0085, U+2028 or U+2029 lies wholly before the offset
+     lc_k_col : a multi-byte character starts before the offset on the offset's line
+     lc_k_eof : the offset is the end of a text that ends with \n or \r *)
+Theorem C11_line_col_old_restricted : forall s off,
+  lc_known_c11 s off = false -> lc_impl_line_col_old s off = res_of (lc_line_col s off).
+Proof. exact line_col_old_restricted. Qed.
+Check C11_line_col_old_restricted : forall s off,
+  lc_known_c11 s off = false -> lc_impl_line_col_old s off = res_of (lc_line_col s off).
+Print Assumptions C11_line_col_old_restricted.
+
+(* the literal two-phase model (line table, then search) equals the one-pass scan [lc_impl_scan_old];
+   in particular the assert! of lc_get_byte_line never fires *)
+Theorem C11_old_impl_is_scan : forall s off, lc_impl_line_col_old s off = res_of (lc_impl_scan_old s off 1 1).
+Proof. exact impl_line_col_old_scan. Qed.
+Check C11_old_impl_is_scan : forall s off, lc_impl_line_col_old s off = res_of (lc_impl_scan_old s off 1 1).
+Print Assumptions C11_old_impl_is_scan.
+
+Theorem C11_old_no_panic : forall s off, lc_impl_line_col_old s off <> LcPanic.
+Proof. exact impl_line_col_old_no_panic. Qed.
+Check C11_old_no_panic : forall s off, lc_impl_line_col_old s off <> LcPanic.
+Print Assumptions C11_old_no_panic.
 
 (* get_line_column_range / SourceSpan::line_column_range = the pair of the two endpoint conversions *)
 Theorem C11_range : forall s a b,
@@ -150,9 +165,15 @@ Print Assumptions C11_name_span_partial.
 (* ---- non-vacuity: a text with multi-byte characters and extra separators on EARLIER lines, CRLF and a
    lone CR, and an offset outside all classes *)
 Definition ex_text : str := [233; 12; 10; 97; 13; 10; 98; 13; 99; 100].   (* é FF LF a CR LF b CR c d *)
+Example C11_fixed_on_old_witnesses :
+  lc_impl_line_col w_col 12 = LcSome 1 7 /\ lc_impl_line_col w_sep 6 = LcSome 2 2 /\
+  lc_impl_line_col w_eof 2 = LcSome 2 1 /\ lc_impl_line_col w_eof 3 = LcNone /\
+  lc_impl_line_col [97; 13; 10; 98] 2 = LcSome 1 3 /\ lc_impl_line_col [233; 97] 1 = LcSome 1 1.
+Proof. vm_compute. auto 7. Qed.
+
 Example C11_nonvacuous :
   lc_known_c11 [97; 13; 10; 98; 13; 99; 100] 6 = false /\
-  lc_impl_line_col [97; 13; 10; 98; 13; 99; 100] 6 = LcSome 3 2 /\
+  lc_impl_line_col_old [97; 13; 10; 98; 13; 99; 100] 6 = LcSome 3 2 /\
   lc_line_col [97; 13; 10; 98; 13; 99; 100] 6 = Some (3, 2) /\
   lc_known_c11 ex_text 4 = true /\
   lc_name_with_location (lc_name_new [97; 98]) (3, 5) = LcWlOk {| lcn_text := [97; 98]; lcn_start := 3; lcn_has_file := true |}.
